@@ -273,7 +273,8 @@ def _run_py_case(pid, tier, c, mod, out):
     cls = getattr(mod, c.msg.name, None)
     if cls is None:
         return
-    base_vecs = values.basis(leaves)[:2] + values.basis(leaves)[-1:]
+    # backgrounds: zero, ones, alternating bits, and two in which every leaf holds a different value (k, k * 2654435761)
+    base_vecs = values.basis(leaves)[:2] + values.basis(leaves)[-1:] + values.big_vectors(leaves)[2:4]
     for bv in base_vecs:
         for li, l in enumerate(leaves):
             if l.kind not in ("uint", "int", "byte", "bool"):
